@@ -213,7 +213,7 @@ func (l *WAL) Open() error {
 			os.Remove(lastSegment)
 			segments = segments[:len(segments)-1]
 		} else {
-			fd, err := os.OpenFile(lastSegment, os.O_RDWR, 0666)
+			fd, err := os.OpenFile(lastSegment, os.O_RDWR|os.O_APPEND, 0666)
 			if err != nil {
 				return err
 			}
